@@ -122,7 +122,7 @@ func runC13(e *Env) error {
 	}
 	defer pool.Close()
 	cases := c13Cases(e)
-	e.Res.Rule = "(A) directory shapes x failing statement at every position x tx-mode {file, all, none} x files applied by an earlier `apply N` x txmode directives x count argument, real binary on SQLite: operation trace == Lean plan, final dump == model, independent oracles (all: dump before; file: clean run of the directory truncated before the failing file; none: successful prefix + error revision), then fix + re-hash + re-run == dump of a never-failing run; (B) --dry-run on fresh/initialised databases with/without --baseline: full dump unchanged; (C) schema apply plans failing midway (several changes, or ONE change that expands to several statements): dump unchanged, --dry-run unchanged; (D) two failures in one file (fail at i, fix, resumed run fails at j > i, fix, third run) in none and file mode: third run succeeds and equals a never-failing run; non-trivial = a statement fails after at least one succeeded; distinct by case"
+	e.Res.Rule = "(A) directory shapes x failing statement at every position x tx-mode {file, all, none} x files applied by an earlier `apply N` x txmode directives x count argument, real binary on SQLite: operation trace == Lean plan, final dump == model, independent oracles (all: dump before; file: clean run of the directory truncated before the failing file; none: successful prefix + error revision), then fix + re-hash + re-run == dump of a never-failing run; (B) --dry-run on fresh/initialised databases with/without --baseline: full dump unchanged; (C) schema apply plans failing midway (several changes, or ONE change that expands to several statements): dump unchanged, --dry-run unchanged; (D) two failures in one file (fail at i, fix, resumed run fails at j > i, fix, third run) in none and file mode: third run succeeds and equals a never-failing run; (E) foreign keys enforced (_fk=1) in file / all mode: a file that leaves a NEW foreign-key violation fails at commit and changes nothing, also when the database already holds a violation (same table, another table with the same rowid / parent / constraint position, another parent), while a file that adds none is applied; non-trivial = a statement fails after at least one succeeded; distinct by case"
 	var mu sync.Mutex
 	viol := func(kind, sig, what, check string, rep any) {
 		mu.Lock()
@@ -143,6 +143,7 @@ func runC13(e *Env) error {
 	c13DryRun(e, pool, viol, &mu)
 	c13Schema(e, pool, viol, &mu)
 	c13TwoFailures(e, viol, &mu)
+	c13FKCheck(e, viol, &mu)
 	e.Res.Note("atlas processes run: %d", cliRuns.Load())
 	return nil
 }
@@ -666,4 +667,68 @@ func c13TwoFailures(e *Env, viol func(kind, sig, what, check string, rep any), m
 			viol("failing-input", "fix-and-rerun-differs", fmt.Sprintf("%s: the third run gives\n%s\na run without failure gives\n%s", desc, trunc(s3.canon(true), 700), trunc(so.canon(true), 700)), "Props.C13.fix_and_rerun", rep)
 		}
 	})
+}
+
+// c13FKCheck: with foreign keys enforced (_fk=1) the SQLite driver compares the violations reported by
+// `PRAGMA foreign_key_check` before and after a transaction: a file (or the whole run in mode all) that leaves a
+// NEW violation fails at commit and its transaction is rolled back - whatever violations the database held
+// before.
+func c13FKCheck(e *Env, viol func(kind, sig, what, check string, rep any), mu *sync.Mutex) {
+	setup := []string{
+		"CREATE TABLE p (id integer PRIMARY KEY)",
+		"CREATE TABLE q (id integer PRIMARY KEY)",
+		"CREATE TABLE a (id integer PRIMARY KEY, r integer REFERENCES p (id))",
+		"CREATE TABLE b (id integer PRIMARY KEY, r integer REFERENCES p (id))",
+		"CREATE TABLE c (id integer PRIMARY KEY, x integer REFERENCES q (id), r integer REFERENCES p (id))",
+		"INSERT INTO p VALUES (1)",
+	}
+	type fc struct {
+		name    string
+		known   []string // violations the database already holds
+		stmts   []string // the migration file
+		newViol bool
+	}
+	cases := []fc{
+		{"no violation known, the file adds one", nil, []string{"INSERT INTO b VALUES (1, 99)"}, true},
+		{"no violation known, the file adds none", nil, []string{"INSERT INTO b VALUES (1, 1)"}, false},
+		{"a violation in the same table, the file adds another row", []string{"INSERT INTO b VALUES (1, 99)"}, []string{"INSERT INTO b VALUES (2, 98)"}, true},
+		{"a violation in another table at the same rowid, parent and constraint position", []string{"INSERT INTO a VALUES (1, 99)"}, []string{"INSERT INTO b VALUES (1, 99)"}, true},
+		{"a violation in another table at the same rowid and parent, other constraint position", []string{"INSERT INTO a VALUES (1, 99)"}, []string{"INSERT INTO c VALUES (1, NULL, 99)"}, true},
+		{"a violation in another table, the file adds none", []string{"INSERT INTO a VALUES (1, 99)"}, []string{"INSERT INTO b VALUES (1, 1)", "INSERT INTO c VALUES (1, NULL, 1)"}, false},
+		{"a violation in another table at the same rowid, the file adds one after a good statement", []string{"INSERT INTO a VALUES (2, 77)"}, []string{"INSERT INTO b VALUES (1, 1)", "INSERT INTO b VALUES (2, 77)"}, true},
+	}
+	for ci, c := range cases {
+		for _, mode := range []string{"file", "all"} {
+			dir := filepath.Join(e.Work, fmt.Sprintf("c13fk-%d-%s", ci, mode))
+			os.RemoveAll(dir)
+			os.MkdirAll(dir, 0o755)
+			dbp := filepath.Join(dir, "db.sqlite")
+			if err := execSQL(dbp, append(append([]string{}, setup...), c.known...)...); err != nil {
+				e.Res.Note("c13fk setup: %v", err)
+				os.RemoveAll(dir)
+				continue
+			}
+			writeMigrationDir(filepath.Join(dir, "m"), []dirFile{{"1_f.sql", strings.Join(c.stmts, ";\n") + ";\n"}})
+			before := dumpDB(dbp)
+			o := runAtlas(e, dir, nil, "migrate", "apply", "--dir", "file://m", "--url", "sqlite://db.sqlite?_fk=1", "--tx-mode", mode, "--allow-dirty")
+			after := dumpDB(dbp)
+			rep := map[string]any{"case": c.name, "mode": mode, "known": c.known, "file": c.stmts}
+			mu.Lock()
+			e.Res.Count(fmt.Sprintf("c13fk:%d:%s", ci, mode), c.newViol, "fk-enforced", "mode:"+mode)
+			mu.Unlock()
+			desc := fmt.Sprintf("--tx-mode %s, _fk=1, %s (known: %v; file: %v)", mode, c.name, c.known, c.stmts)
+			rowsOf := func(d dbDump) string {
+				return fmt.Sprintf("a=%v b=%v c=%v", d.Rows["a"], d.Rows["b"], d.Rows["c"])
+			}
+			switch {
+			case c.newViol && o.Code == 0:
+				viol("failing-input", "new-fk-violation-committed", desc+": the command exits 0 and commits the file; rows now "+rowsOf(after), "Props.C13 fail_file_mode / fail_all_mode (foreign keys)", rep)
+			case c.newViol && rowsOf(after) != rowsOf(before):
+				viol("failing-input", "file-mode-not-rolled-back", desc+": the command fails but the rows changed: "+rowsOf(before)+" -> "+rowsOf(after), "Props.C13 fail_file_mode / fail_all_mode (foreign keys)", rep)
+			case !c.newViol && o.Code != 0:
+				viol("failing-input", "command-fails-on-clean-input", desc+": the file adds no violation but the command fails: "+trunc(o.Stderr+o.Stdout, 300), "Props.C13 (foreign keys)", rep)
+			}
+			os.RemoveAll(dir)
+		}
+	}
 }
